@@ -1,4 +1,5 @@
 import Secp.Driver.Ops
+import Secp.Gen.TraceFacts
 namespace Driver
 open Spec Hand Hand.ElementL
 
@@ -77,11 +78,6 @@ def pointOp (op : String) (a : List String) : Option (List String) :=
         (if canonP u then
           let s := Rfc9380.mapToCurve (fromMontP u)
           [kv "s_c" (encS s), kv "s_u" (showBytes (Spec.encodeUncompressed s))] else []))
-  | "PT.h2g", [u0, u1] => let u0 := parseL4 u0; let u1 := parseL4 u1
-      let r := Curve.isogeny FL (Curve.addAffine3Iso2 FL (Curve.sswu FL u0) (Curve.sswu FL u1))
-      some (ptOut r ++
-        (if canonP u0 ∧ canonP u1 then
-          [kv "s_c" (encS (padd (Rfc9380.mapToCurve (fromMontP u0)) (Rfc9380.mapToCurve (fromMontP u1))))] else []))
   | _, _ => none
 
 /-- specification outcome of a decoder: error kind and encoding of the receiver afterwards -/
@@ -116,6 +112,8 @@ def decodeOp (op : String) (a : List String) : Option (List String) :=
       some (decOut (decodeHex r hs) ++ sp)
   | _, _ => none
 
+def enumFrom' {β : Type} (l : List β) : List (Nat × β) := (List.range l.length).zip l
+
 def xmdOp (op : String) (a : List String) : Option (List String) :=
   match op, a with
   | "XMD.sha", [m] => let m := parseBytes m
@@ -144,6 +142,29 @@ def xmdOp (op : String) (a : List String) : Option (List String) :=
       some (ptOut (Hand.Group.encodeToGroupFromUniform u) ++ [kv "s_c" (encS (Rfc9380.mapToCurve (os2ip (u.take 48) % P)))])
   | "H2C.h2su", [u] => let u := parseBytes u
       some (rvN (Hand.Fn.hashToFieldElement u) ++ [kv "s_v" (natHex (os2ip u % N) 32)])
+  | "RND", [d, _chunk] => let d := parseBytes d
+      let o := Hand.Scalar.random d
+      -- specification: the first 32-byte block whose value mod n is non-zero, reduced; none -> panic
+      let rec firstGood (fuel : Nat) (s : Bytes) (used : Nat) : Option Nat × Nat :=
+        match fuel with
+        | 0 => (none, used + s.length)
+        | f+1 => if s.length < 32 then (none, used + s.length)
+                 else if os2ip (s.take 32) % N ≠ 0 then (some (os2ip (s.take 32) % N), used + 32)
+                 else firstGood f (s.drop 32) (used + 32)
+      let sp := firstGood (d.length / 32 + 1) d 0
+      some ((match o.1 with
+             | none => [kv "panic" "1"]
+             | some m => rvN m) ++ [kv "used" (toString o.2)] ++
+            (match sp.1 with
+             | none => [kv "s_panic" "1"]
+             | some v => [kv "s_v" (natHex v 32)]) ++ [kv "s_used" (toString sp.2)])
+  | "TR.alts", [] =>
+      let M : Nat := 2^61 - 1
+      let hstr (s : String) : Nat := s.toList.foldl (fun a c => (a * 131 + c.toNat) % 2147483647) 7
+      let htr (t : List String) : Nat := t.foldl (fun a s => (a * 1000003 + hstr s) % M) 1
+      some ([kv "n" (toString TraceFacts.multiplyAlternatives.length)] ++
+        (enumFrom' TraceFacts.multiplyAlternatives).flatMap (fun (i, t) =>
+          [kv s!"len{i}" (toString t.length), kv s!"h{i}" (toString (htr t))]))
   | "G.order", [] => some [kv "o" (showBytes Hand.Group.order), kv "s_o" (natHex N 32)]
   | "G.base", [] => some (ptOut Hand.ElementL.base ++ [kv "s_c" (encS G)])
   | _, _ => none
